@@ -534,7 +534,8 @@ func init() {
 		Rule: "expression level: every Validate()-passing tree up to the depth bound over {SUM,MIN,MAX,COUNT,AVG,WAVG (plain and BOUNDED), PERCENTILE, CONST} × {12 binary ops, IF, SHIFT, LN/LOG2/LOG10} × all update sequences of length <=3 over values {-1,0,2,5}×{y} × all assignments to 2 and 3 parts: merged value == single-state value, commutative, associative, operands byte-identical; " +
 			"series level (window of 6 periods): Merge over all 63×63 presence masks × 17 truncateBefore instants, Truncate over all 63 masks × 17×17 (asOf, until), UpdateValue over all insertion orders of <=3/4 points × 17 truncateBefore, against a map[period]value reference; non-trivial = expression with >=2 updates split across parts / overlapping unequal masks / multi-point orders",
 		Assumptions: []string{"HDR histogram arithmetic of PERCENTILE is trusted (compared against single-state accumulation in the same package)", "expired periods (older than truncateBefore) are unconstrained"},
-		Shards:      func(tier string) int { return 32 },
+		Shards:      func(tier string) int { return 16 },
+		Par:         16,
 		Budget: func(tier string) time.Duration {
 			if tier == "thorough" {
 				return 30 * time.Minute
